@@ -21,5 +21,21 @@ check("C05", "exploration",
       "Differential oracle over delivery schedules of one byte script: base (one token per read) vs per byte, one read, random cut sets (thorough: all cut sets of scripts <= 8 bytes) and type-ahead coupled with the terminal's cursor-position reply (before / same write / after); every schedule must return the same (line, err); a disagreement is localised to a single read boundary where possible.",
       TCB + " Scripts are well-formed keyboard input (valid UTF-8, complete sequences); in Vi modes the boundary directly after ESC is kept as in the base schedule.", "runtime monitoring: differential testing over controlled delivery schedules", "DESIGN.md 5 C05")
 
+check("C10", "fault_enumeration",
+      "Round trip of generated write sequences through a reopened file-backed history, and enumeration of crash points: the file cut at every byte offset of the last append (sampled for records > 4 KiB) must reopen without error with all completed entries, and an entry appended afterwards through the API must survive another reopen.",
+      "Crash model: process death during the single O_APPEND write leaves a byte prefix of the record (no power-loss / fsync claims). Real files on the sandbox file system.", "runtime monitoring: fault enumeration (every truncation offset) on the real history file code", "DESIGN.md 5 C10")
+
+check("C12", "exploration",
+      "Totality monitor: tens of thousands of mutated inputrc texts (truncations, byte flips, lone modifiers/directives, unterminated quotes, deep $if, 64 KiB-1 MiB lines, CR/LF/NUL mixes, random bytes) x options x include graphs (self, cycle, chain, diamond, missing, erroring) parsed in worker processes through ParseBytes, Parser.Parse and the real NewShell(INPUTRC) start-up path; no panic, no fatal error (attributed by the driver), bounded ReadFile calls.",
+      "A fatal runtime error kills the worker; the driver attributes it to the running case. Recursion bound is logical (ReadFile calls), not wall clock.", "runtime monitoring: crash/recursion monitors over mutated inputs in child processes", "DESIGN.md 5 C12")
+
+check("C13", "exploration",
+      "Reference evaluator over the generator's AST vs Config.Binds/Config.Vars after parsing the rendered text, for tens of thousands of generated programs under 8 (mode, term, app) settings each; the single known deviation (inner $if ignoring an inactive enclosing block, which a pinned test requires) is recognised exactly by a second evaluator and listed as a known finding.",
+      "Reference semantics are the statement's (a directive is live iff every enclosing arm is live); key notation decoded from the generator's own choice of notation.", "runtime monitoring: reference evaluator (executable model) vs parsed configuration", "DESIGN.md 5 C13")
+
+check("C19", "exploration",
+      "Round-trip law Unescape(Escape(s)) == s / Unescape(EscapeMacro(s)) == s: exhaustive over every rune 0x00-0xFF and every pair, every default binding and macro, random sequences incl. Unicode; plus sessions running dump-functions/-variables/-macros with a numeric argument on generated configurations, whose captured terminal output is parsed back and compared with the live configuration.",
+      TCB, "runtime monitoring: inverse-law oracle (exhaustive for length <= 2) + dump/re-parse sessions", "DESIGN.md 5 C19")
+
 for _p in ["C03","C04","C05","C06","C07","C08","C09","C10","C11","C12","C13","C14","C15","C16","C17","C18","C19","C20"]:
     NOT_YET[_p] = "check under construction in this session (runtime monitor designed in DESIGN.md section 5, not yet registered)"
